@@ -572,12 +572,19 @@ def r5_scheduler_row(ctx: Context) -> None:
                 break
         if e is None:
             continue
-        if any(isinstance(x, ast.BinOp) for x in ast.walk(e)):
-            raise AnalysisError(f"{name} is computed arithmetically (`{norm(e)[:60]}`); the predicate rule cannot decide it")
-        preds = _count_predicates(h, e)
-        if not preds:
-            raise AnalysisError(f"no counting predicate found for {name}: `{norm(e)[:60]}`")
-        f = ("and", [_placed_formula(p) for p in preds])
+        f = None
+        if isinstance(e, ast.BinOp) and isinstance(e.op, ast.Sub) and isinstance(e.left, ast.Call) and call_name(e.left) == "len":
+            # len(all decisions) - (count with predicate Q)  ==  count with predicate not Q
+            sub_preds = _count_predicates(h, _inline_names(h, e.right))
+            if sub_preds:
+                f = lin.f_not(("and", [_placed_formula(p) for p in sub_preds]))
+        if f is None:
+            if any(isinstance(x, ast.BinOp) for x in ast.walk(e)):
+                raise AnalysisError(f"{name} is computed arithmetically (`{norm(e)[:60]}`); the predicate rule cannot decide it")
+            preds = _count_predicates(h, e)
+            if not preds:
+                raise AnalysisError(f"no counting predicate found for {name}: `{norm(e)[:60]}`")
+            f = ("and", [_placed_formula(p) for p in preds])
         placed_atom = ("atom", ("bool", "P.is_placed()"), True)
         type_atom = ("atom", ("bool", "P.placement_type == PLACE_TASK"), True)
         want = placed_atom if want_placed else lin.f_not(placed_atom)
@@ -669,6 +676,24 @@ def r6_miss_iff_late(ctx: Context) -> None:
                   f"tardiness is `{norm(ie)[:100]}`")
 
 
+def r9_reader_keeps_everything(ctx: Context) -> None:
+    ctx.rule("C08.R9", "the CSV reader hands over every task / task graph / scheduler invocation it reconstructed: the collections "
+                       "stored on the reconstructed Simulator are built from the full tables, with no filter")
+    mod = ctx.repo.mod("data/csv_reader.py")
+    n = 0
+    for a in ast.walk(mod.tree):
+        if isinstance(a, ast.Assign) and isinstance(a.targets[0], ast.Attribute) and isinstance(a.targets[0].value, ast.Name) \
+                and a.targets[0].value.id == "simulator" and a.targets[0].attr in ("tasks", "task_graphs", "scheduler_invocations", "worker_pools"):
+            n += 1
+            filt = [norm(x)[:60] for x in ast.walk(a.value)
+                    if (isinstance(x, ast.comprehension) and x.ifs) or (isinstance(x, ast.Call) and call_name(x) == "filter")]
+            srcs = [norm(x) for x in ast.walk(a.value) if isinstance(x, ast.Name)]
+            ctx.check(not filt, "C08.R9", f"{qualname(a)}|simulator.{a.targets[0].attr} holds every reconstructed entry", loc(a), f"from {sorted(set(srcs))[:3]}",
+                      f"`{norm(a)[:100]}` filters the reconstructed entries ({filt}): tasks that e.g. were cancelled before their release "
+                      "have a TASK_CANCEL row but disappear from the reader's view, which then disagrees with the SIMULATOR_END counts")
+    ctx.floor("C08.R9", "collections handed over by the reader", n, 3)
+
+
 def r7_census(ctx: Context) -> None:
     ctx.rule("C08.R7", "Workload.get_cancelled_task_graphs returns exactly the graphs for which is_cancelled() holds; "
                        "TaskGraph.is_cancelled = any sink CANCELLED")
@@ -717,5 +742,6 @@ def run(ctx: Context) -> None:
     ctx.isolate(r5_scheduler_row)
     ctx.isolate(r6_miss_iff_late)
     ctx.isolate(r7_census)
+    ctx.isolate(r9_reader_keeps_everything)
     from . import c06
     ctx.isolate(c06.r5_cancellation_reported, _alias={"C06.R5": "C08.R8"})
